@@ -176,3 +176,45 @@ impl PartialEq for Type {
     #[verifier::external_body]
     fn eq(&self, other: &Type) -> (r: bool) { unimplemented!() }
 }
+
+// ---------------------------------------------------------------------------------------------
+// Spec side of the `cast_value!`-generated conversions.  NOT an assumption: every milu unit extracts the
+// `impl TryFrom<Value> for T` / `impl From<T> for Value` bodies from the compiler's expansion, and vstd's
+// postcondition on TryFrom::try_from / From::from checks those bodies against the functions below; callers of
+// `try_into()` / `into()` then use them.  (A unit that lists this shim MUST extract these impls.)
+impl vstd::std_specs::convert::TryFromSpecImpl<Value> for i64 {
+    open spec fn obeys_try_from_spec() -> bool { true }
+    open spec fn try_from_spec(x: Value) -> Result<i64, Error> {
+        match x { Value::Integer(v) => Ok(v), _ => Err(Error {}) }
+    }
+}
+impl vstd::std_specs::convert::TryFromSpecImpl<Value> for bool {
+    open spec fn obeys_try_from_spec() -> bool { true }
+    open spec fn try_from_spec(x: Value) -> Result<bool, Error> {
+        match x { Value::Boolean(v) => Ok(v), _ => Err(Error {}) }
+    }
+}
+impl vstd::std_specs::convert::TryFromSpecImpl<Value> for String {
+    open spec fn obeys_try_from_spec() -> bool { true }
+    open spec fn try_from_spec(x: Value) -> Result<String, Error> {
+        match x { Value::String(v) => Ok(v), _ => Err(Error {}) }
+    }
+}
+impl vstd::std_specs::convert::TryFromSpecImpl<Value> for Arc<Vec<Value>> {
+    open spec fn obeys_try_from_spec() -> bool { true }
+    open spec fn try_from_spec(x: Value) -> Result<Arc<Vec<Value>>, Error> {
+        match x { Value::Array(v) => Ok(v), _ => Err(Error {}) }
+    }
+}
+impl vstd::std_specs::convert::FromSpecImpl<i64> for Value {
+    open spec fn obeys_from_spec() -> bool { true }
+    open spec fn from_spec(v: i64) -> Value { Value::Integer(v) }
+}
+impl vstd::std_specs::convert::FromSpecImpl<bool> for Value {
+    open spec fn obeys_from_spec() -> bool { true }
+    open spec fn from_spec(v: bool) -> Value { Value::Boolean(v) }
+}
+impl vstd::std_specs::convert::FromSpecImpl<String> for Value {
+    open spec fn obeys_from_spec() -> bool { true }
+    open spec fn from_spec(v: String) -> Value { Value::String(v) }
+}
